@@ -166,6 +166,9 @@ func pool(names []string) *x509.CertPool {
 	if names == nil {
 		return fix.Pool("ca1")
 	}
+	if len(names) == 1 && names[0] == "none" {
+		return nil // the field is left unset
+	}
 	return fix.Pool(names...)
 }
 
